@@ -7,7 +7,10 @@
 //    node_unlink, node_move (merge of two lists of different trees), node_clone/list_clone/tree_clone, node_clear,
 //    node_destroy (linked: must refuse; detached: frees the subtree), gnode_swap, gnode_switch, gnode_relink
 //    (on a sound tree, and after the derived links prev/parent below a node were spoilt), gnode_traverse, gnode_pos,
-//    node_locate.
+//    node_locate; mpt_parse_node of a generated configuration text (options, sections to depth 3, comments, blank lines;
+//    also texts without any element: empty, blank-only, comment-only) into a live node with or without children, names
+//    overlapping / extending / disjoint from the present children. It runs in the turns in which the drawn operation has
+//    nothing to work on (the operation weights are untouched: corpus files decode as before).
 //    Preconditions taken from the callers in /repo: the inserted node is detached (no parent/next/prev), the target is
 //    not inside the inserted node's own subtree, move works between different trees with dst = head of the target list.
 // O: after every step a full walk over all live nodes (see observe()): next/prev agree, siblings share the parent,
@@ -16,7 +19,10 @@
 //    placed nodes must occur exactly once in the right list and the order of the others must be unchanged);
 //    nodes the step releases are freed (ASan poison), all others are not; counting values are released exactly once;
 //    names and values of every live node are unchanged; a clone is a separate sound structure isomorphic to its source
-//    with equal names and values at every depth. Case end: everything destroyed, every node freed, every counting
+//    with equal names and values at every depth. mpt_parse_node: the model merge is the documented one (mpt_node_move +
+//    mpt_node_clear): parsed elements in text order, then the old children without a parsed namesake; an old child with a
+//    namesake is released after its children were merged into the namesake's by the same rule; parser-made nodes are
+//    matched to the text in order (name, value), then the whole forest is walked as after every step. Case end: everything destroyed, every node freed, every counting
 //    value released exactly once, allocation balance/LSan by the engine.
 #include "vp.hpp"
 
@@ -1018,8 +1024,8 @@ static Target t = {
     "random histories (<= 80 steps) over <= 12 created nodes (+ clones, <= 30 live) with names from {a,b,c} (1-2 letters, unnamed, long names across the inline "
     "identifier capacity) and values none/counting metatype/text: new, gnode_add/node_add and gnode_insert/node_insert at pos {0,1,2,3,-1,-2,-3,7,-7}, "
     "gnode_after/before, unlink, node_move between two trees (top-level or children lists), node/list/tree clone, clear, destroy, gnode_swap/switch, "
-    "gnode_relink (plain and after spoiling prev/parent), traverse, gnode_pos, node_locate; full link walk + model comparison + release accounting after every step. "
-    "non-trivial: a move/merge or a list/tree clone involved a node with children, or an unlink removed the head of a list with followers; distinct by hash of the draw sequence.",
+    "gnode_relink (plain and after spoiling prev/parent), traverse, gnode_pos, node_locate, mpt_parse_node of generated texts (incl. element-less ones) into populated and empty nodes; full link walk + model comparison + release accounting after every step. "
+    "non-trivial: a move/merge or a list/tree clone involved a node with children, an unlink removed the head of a list with followers, or a text was parsed into a node that has children; distinct by hash of the draw sequence.",
     run,
     {400, 1200},
     false,
